@@ -5,33 +5,36 @@ import Zlink.Model.Alias
 namespace DriverAlias
 open Wire Rx Alias
 
-/-- receive every frame of each group (one arrival per group), collecting the views; `stop` = how many
-    frames are received in all (the stream ends at a frame that is a general error: that frame is consumed,
-    nothing after it is) -/
-def runGroups (C : Consts) (stop : Nat) : List (List (List Byte)) → ASt → Net → List View → ASt × List View
-  | [], a, _, vs => (a, vs)
-  | g :: gs, a, e, vs =>
-    if vs.length ≥ stop then (a, vs) else
-    let e := { e with avail := e.avail ++ g.flatMap (· ++ [0]) }
-    let rec recvN (n : Nat) (a : ASt) (e : Net) (vs : List View) : ASt × Net × List View :=
-      match n with
-      | 0 => (a, e, vs)
-      | n+1 =>
-        let r := apoll C (fun _ => 1000000000) a e
-        match r.2.2.2 with
-        | some v => recvN n r.2.1 r.2.2.1 (vs ++ [v])
-        | none => (r.2.1, r.2.2.1, vs)
-    let (a', e', vs') := recvN (min g.length (stop - vs.length)) a e vs
-    runGroups C stop gs a' e' vs'
+/-- poll the reply stream until it is pending (or `stop` frames have been received: the stream ends at a
+    frame that is a general error: that frame is consumed, nothing after it is) -/
+def pollAll (C : Consts) (stop : Nat) : Nat → ASt → Net → List View → ASt × Net × List View
+  | 0, a, e, vs => (a, e, vs)
+  | n+1, a, e, vs =>
+    if vs.length ≥ stop then (a, e, vs) else
+    let r := apoll C (fun _ => 1000000000) a e
+    match r.2.2.2 with
+    | some v => pollAll C stop n r.2.1 r.2.2.1 (vs ++ [v])
+    | none => (r.2.1, r.2.2.1, vs)
 
-def splitGroups : List Nat → List (List Byte) → List (List (List Byte))
+/-- the reply bytes arrive chunk by chunk (one arrival per chunk, wherever its boundary falls); after each
+    arrival the caller polls the stream until it is pending, holding every view it was given -/
+def runChunks (C : Consts) (stop nframes : Nat) : List (List Byte) → ASt → Net → List View → ASt × List View
+  | [], a, _, vs => (a, vs)
+  | c :: cs, a, e, vs =>
+    if vs.length ≥ stop then (a, vs) else
+    let e := { e with avail := e.avail ++ c }
+    let (a', e', vs') := pollAll C stop (nframes + 2) a e vs
+    runChunks C stop nframes cs a' e' vs'
+
+def splitChunks : List Nat → List Byte → List (List Byte)
   | [], _ => []
-  | g :: gs, fs => fs.take g :: splitGroups gs (fs.drop g)
+  | c :: cs, bs => bs.take c :: splitChunks cs (bs.drop c)
 
 def handle (ts : List String) : String :=
   let (_, r0) := splitAt "F" ts
   let (fs, r1) := splitAt "G" r0
-  let (gs, r2) := splitAt "O" r1
+  let (_, r1c) := splitAt "C" r1
+  let (gs, r2) := splitAt "O" r1c
   let (osx, obs) := splitAt "=>" r2
   let (os, xs) := splitAt "X" osx
   let frames := fs.map decBytes
@@ -41,7 +44,7 @@ def handle (ts : List String) : String :=
   let off := (os.headD "0").toNat!
   let C := DriverRx.consts
   let stop := match errAt with | some k => k + 1 | none => frames.length
-  let (a, vs0) := runGroups C stop (splitGroups groups frames) (ainit C) net0 []
+  let (a, vs0) := runChunks C stop frames.length (splitChunks groups (frames.flatMap (· ++ [0]))) (ainit C) net0 []
   -- the erroring frame is consumed but yields no item
   let vs := match errAt with | some k => vs0.take k | none => vs0
   -- the borrowed bytes are the `name` value: from `off` to 3 bytes before the end of the frame (`"}}`)
